@@ -106,6 +106,30 @@ func randBytes(rng *rand.Rand, n int) string {
 	return string(b)
 }
 
+// multi-byte sequences that matter to rewrites based on unicode.* classes or rune decoding:
+// every 2-byte sequence, and 3-byte sequences over the leads that carry Unicode spaces,
+// controls, BOM, replacement character and surrogates
+func multiByteUnits(f func(string)) {
+	for b1 := 0x80; b1 < 0x100; b1++ {
+		for b2 := 0x00; b2 < 0x100; b2++ {
+			if b2 < 0x80 && b2%16 != 0 {
+				continue
+			}
+			f(string([]byte{byte(b1), byte(b2)}))
+		}
+	}
+	for _, l := range []byte{0xe0, 0xe1, 0xe2, 0xe3, 0xed, 0xef} {
+		for b1 := 0x80; b1 < 0xc0; b1++ {
+			for b2 := 0x80; b2 < 0xc0; b2++ {
+				f(string([]byte{l, byte(b1), byte(b2)}))
+			}
+		}
+	}
+	for _, u := range []string{"\xf0\x9f\x98\x80", "\xf0\x90\x80\x80", "\xf4\x8f\xbf\xbf", "\xf4\x90\x80\x80", "\xf0\x80\x80\x80"} {
+		f(u)
+	}
+}
+
 func pick(rng *rand.Rand, xs []string) string { return xs[rng.Intn(len(xs))] }
 
 func rep(s string, n int) string {
